@@ -101,8 +101,14 @@ def r1_writers(ctx):
                                   f"cache dictionary `{owner(a)}` escapes to `{cn}` which is not a confirmed read-only callee")
         for n, attr, how in sites:
             allowed = f.mod == STATE and f.qual in WRITERS[attr]
-            ctx.check(allowed, "C01.R1", f, n, f"{how} of {attr} inside an owner method",
-                      f"{how} of State.{attr} outside its owner methods {sorted(WRITERS[attr])}")
+            via = None
+            if not allowed and f.mod == STATE and f.qual.startswith("State._") and not f.qual.startswith("State.__"):
+                # a private helper of State split out of an owner method: it writes on behalf of its callers, which must all be owner methods
+                callers = _callers_of_private(ix, f.qual.split(".", 1)[1])
+                outside = sorted(q for (m, q) in callers if not (m == STATE and q in WRITERS[attr]))
+                allowed, via = not outside, (outside[0] if outside else None)  # no caller left: every call was read in place (index-time inlining of writer helpers)
+            ctx.check(allowed, "C01.R1", f, n, f"{how} of {attr} inside an owner method" + (" (private helper called by owner methods only)" if f.qual not in WRITERS[attr] else ""),
+                      f"{how} of State.{attr} outside its owner methods {sorted(WRITERS[attr])}" + (f" (the helper is also called from `{via}`, which then writes the cache without the checks of the owner methods)" if via else ""))
     # R1c: compute() implementations are read-only on their argument
     for key, cn in ix.classes.items():
         if key[0] != "leaspy.variables.specs":
@@ -447,9 +453,105 @@ def r1d_no_other_cache(ctx, rid="C01.R1d"):
         ctx.unknown(rid, (STATE, "State"), None, f"attributes {sorted(missing)} are no longer written by State: the storage was re-organised", construct="attributes of State")
 
 
+def _callers_of_private(ix, name):
+    """(module, qualname) of every function of the package calling `<anything>.<name>(...)` or naming the attribute `<name>` (a reference
+    handed around counts as a call)"""
+    out = set()
+    for g in ix.iter_funcs():
+        for n in walk_no_nested(g.node):
+            if isinstance(n, ast.Attribute) and n.attr == name:
+                out.add((g.mod, g.qual))
+    return out
+
+
+def r13_only_settable_assigned(ctx):
+    """'derived values are always what their definition gives from the current ancestors': a derived variable is never *assigned*.  Every
+    store of a caller-supplied value under a caller-supplied name into the cache is preceded, on every path, by the refusal of a name whose
+    variable is not settable - in the storing function itself or, for a private helper, in each of its callers before the call."""
+    ctx.rule("C01.R13", "a caller-supplied value is stored only after `is_settable` was checked for its name (in the storing function or before every call of the private helper storing it)", 1)
+    ix = ctx.ix
+
+    def refusal_before(f, cfg, target, key_text):
+        """is there an `if` refusing (raise) a name whose variable is not settable, passed on every path from the entry to `target`?"""
+        for r in cfg.nodes(lambda s_: isinstance(s_, ast.Raise)):
+            for h, lab in cfg.if_guards(r):
+                t = U(cfg.stmt[h].test)
+                if ((t == f"not self.dag[{key_text}].is_settable" and lab is True) or (t == f"self.dag[{key_text}].is_settable" and lab is False)) \
+                        and cfg.all_paths_pass(cfg.entry, [h], end=target) and h != target:
+                    return True
+        return False
+
+    def check_function(f, depth, seen):
+        """obligations for the stores `self._values[K] = V` of f with K and V parameters of f"""
+        params = [a.arg for a in f.node.args.posonlyargs + f.node.args.args + f.node.args.kwonlyargs]
+        cfg = CFG(f.node)
+        inl = Inliner(f.node)
+        n_found = 0
+        for n in cfg.nodes(lambda s_: isinstance(s_, ast.Assign)):
+            st = cfg.stmt[n]
+            for t in st.targets:
+                if not (isinstance(t, ast.Subscript) and U(t.value) == "self._values"):
+                    continue
+                k = t.slice
+                v = inl.resolve(st.value) if isinstance(st.value, ast.Name) else st.value
+                # a value stored under a caller-supplied name: everything but the un-setting (None) and the cache fill (`.compute(...)` of the definition)
+                def _is_fill(e):
+                    return any(isinstance(c_, ast.Call) and isinstance(c_.func, ast.Attribute) and c_.func.attr == "compute" for c_ in ast.walk(e))
+                fill = _is_fill(v) or (isinstance(st.value, ast.Name) and any(
+                    _is_fill(d.value) for d in ast.walk(f.node) if isinstance(d, (ast.Assign, ast.NamedExpr)) and d.value is not None
+                    and any(isinstance(t_, ast.Name) and t_.id == st.value.id for t_ in (d.targets if isinstance(d, ast.Assign) else [d.target]))))
+                if not (isinstance(k, ast.Name) and k.id in params) or (isinstance(v, ast.Constant) and v.value is None) or fill:
+                    continue
+                n_found += 1
+                if refusal_before(f, cfg, n, k.id):
+                    ctx.ok("C01.R13", f, st, f"`{U(st)}` is reached only after `self.dag[{k.id}].is_settable` was checked (refusal by raise)", construct=f"store in {f.qual}")
+                    continue
+                # not checked here: every caller must check before calling (private helpers only)
+                name = f.qual.split(".", 1)[1] if "." in f.qual else f.qual
+                if not (name.startswith("_") and not name.startswith("__")) or depth >= 3:
+                    ctx.violation("C01.R13", f, st, f"`{U(st)}` stores a caller-supplied value without checking `self.dag[{k.id}].is_settable` first: a derived variable can be assigned, "
+                                  "and it (and everything computed from it) then differs from what its definition gives", construct=f"store in {f.qual}")
+                    continue
+                kpos = params.index(k.id) - 1  # position among the call's arguments (self is implicit)
+                callers = 0
+                for g in ix.iter_funcs():
+                    gcfg = None
+                    for c in walk_no_nested(g.node):
+                        if not (isinstance(c, ast.Attribute) and c.attr == name):
+                            continue
+                        callers += 1
+                        call = next((x for x in walk_no_nested(g.node) if isinstance(x, ast.Call) and x.func is c), None)
+                        karg = None
+                        if call is not None:
+                            karg = call.args[kpos] if 0 <= kpos < len(call.args) and not any(isinstance(a, ast.Starred) for a in call.args) else kwarg(call, k.id)
+                        if call is None or karg is None or not (g.mod == STATE and U(c.value) == "self"):
+                            ctx.violation("C01.R13", g, call or c, f"`{U(call or c)[:80]}`: the unchecked writer `{f.qual}` is used here without a visible `is_settable` refusal for the name it is given", construct=f"use of {name} in {g.qual}")
+                            continue
+                        gcfg = gcfg or CFG(g.node)
+                        cn = gcfg.node_containing(call)
+                        if cn is not None and isinstance(karg, ast.Name) and refusal_before(g, gcfg, cn, karg.id):
+                            ctx.ok("C01.R13", g, call, f"`{name}` is called only after `self.dag[{karg.id}].is_settable` was checked", construct=f"use of {name} in {g.qual}")
+                        else:
+                            ctx.violation("C01.R13", g, call, f"`{U(call)[:90]}` reaches the store `{U(st)}` of `{f.qual}` without the refusal of a name that is not settable: `{g.qual}` can assign a derived "
+                                          "variable, whose cached value (and every value computed from it) then differs from what its definition gives from the current ancestors",
+                                          construct=f"use of {name} in {g.qual}")
+                if not callers:
+                    ctx.ok("C01.R13", f, st, f"`{f.qual}` is never called", construct=f"store in {f.qual}")
+        return n_found
+
+    total = 0
+    for f in ix.iter_funcs():
+        if f.mod == STATE and f.qual.startswith("State."):
+            ctx.analysed(f)
+            total += check_function(f, 0, set())
+    if not total:
+        ctx.unknown("C01.R13", (STATE, "State.__setitem__"), None, "no store of a caller-supplied value under a caller-supplied name found in State any more", construct="store of a supplied value")
+
+
 def rules(ctx):
     r1d_no_other_cache(ctx)
     r1_writers(ctx)
+    r13_only_settable_assigned(ctx)
     r2_invalidate(ctx)
     r3_read(ctx)
     r4_out_of_place(ctx)
